@@ -16,6 +16,7 @@ use bitcoin::BlockHash;
 
 use teos_common::appointment::{Appointment, Locator};
 use teos_common::dbm::{DatabaseConnection, DatabaseManager, Error};
+use teos_common::verif::crash_point;
 use teos_common::UserId;
 
 use crate::extended_appointment::{ExtendedAppointment, UUID};
@@ -199,8 +200,12 @@ impl DBM {
             }
         }
 
+        crash_point("batch_remove_users", false);
         match tx.commit() {
-            Ok(_) => log::debug!("Users successfully deleted"),
+            Ok(_) => {
+                crash_point("batch_remove_users", true);
+                log::debug!("Users successfully deleted")
+            }
             Err(e) => log::error!("Couldn't delete users. Error: {e:?}"),
         }
 
@@ -445,8 +450,12 @@ impl DBM {
             };
         }
 
+        crash_point("batch_remove_appointments", false);
         match tx.commit() {
-            Ok(_) => log::debug!("Appointments successfully deleted"),
+            Ok(_) => {
+                crash_point("batch_remove_appointments", true);
+                log::debug!("Appointments successfully deleted")
+            }
             Err(e) => log::error!("Couldn't delete appointments. Error: {e:?}"),
         }
 
